@@ -85,6 +85,11 @@ def bfs_scenarios(quick: bool) -> list[dict]:
     for to in (0.5001, 20.0) if quick else T_EDGES:
         sc.append({"qos_mode": False, "flat": True, "callers": [caller("rq30c9_01", timeout=to)], "dev": ("drop", "dup", "adv_late", "adv_ready", "jb")})
     sc.append({"qos_mode": False, "flat": True, "callers": [caller("rq30c9_01", timeout=0.5001), caller("w2309_02", timeout=20.0)], "dev": ("drop", "adv_late", "adv_ready")})
+    # a regulated transport holds each frame for a while before writing it (duty-cycle limiter, write gap): the write completes - or
+    # fails, or meets a closed connection - after the echo timer has moved the command on, or after the command is over
+    for wd in (0.6,) if quick else (0.05, 0.3, 0.6, 1.2):
+        sc.append({"qos_mode": False, "flat": True, "write_delay": wd, "callers": [caller("rq30c9_01", timeout=20.0)], "dev": ("drop", "wfail", "disc")})
+        sc.append({"qos_mode": False, "flat": True, "write_delay": wd, "callers": [caller("rq30c9_01", timeout=0.5001), caller("w2309_02", timeout=20.0)], "dev": ("drop", "wfail", "disc")})
     if not quick:
         sc.append({"qos_mode": False, "flat": True, "callers": [caller("rq30c9_01", timeout=1.5001), caller("w2309_02", timeout=0.5001)], "dev": ("drop", "dup", "adv_late", "adv_ready", "jb")})
         sc.append({"qos_mode": False, "flat": True, "callers": [caller("rq30c9_01", timeout=20.0), caller("w2309_02", timeout=20.0)], "dev": ("drop", "dup", "pause", "disc")})
